@@ -54,7 +54,7 @@ theorem ltcMiss_post {fault : Option Item} {rec : Call → State → R} (hrec : 
       simp only []
       have hipush : Inv W L s1.push := hl1.inv.of_sameCore (sameCore_push s1)
       have hloop := loopDeps_post W L (fun p s => rec (.ltc p) s) (fun p s hs => hrec (.ltc p) s hs) order s1.push [] hipush
-      rcases hlp : loopDeps (fun p s => rec (.ltc p) s) order s1.push [] with ⟨r2, s2, deps⟩
+      rcases hlp : loopDeps W (fun p s => rec (.ltc p) s) order s1.push [] with ⟨r2, s2, deps⟩
       rw [hlp] at hloop
       obtain ⟨hr2, hb2, hctx⟩ := hloop
       simp only [] at hr2 hb2 hctx
@@ -147,10 +147,53 @@ theorem impBody_post {fault : Option Item} {rec : Call → State → R} (hrec : 
       exact ⟨((Rel.of_sameCore hi hsc).trans h1).core_right ⟨rfl, rfl, rfl⟩, h2⟩
     | none => exact ⟨(Rel.of_sameCore hi hsc).trans h1, h2⟩
 
+/-- what the specification computes, given that the cache holds the specified content of `n` and the theory under
+    construction holds the specified context -/
+theorem specLoad_eq (n : Name) (lim : Limit) (order : List Name) (content : List (Item × PRes)) (ctx : List Item)
+    (htopo : topoCheck L.imps L.names = none) (hord : L.order (L.imports n) = some order)
+    (hsp : ∀ k, specContent W L k n ≠ .error .fuel → specContent W L k n = .ok content)
+    (hctx : ∀ k, ctxOf W (specContent W L k) order [] ≠ .error .fuel → ctxOf W (specContent W L k) order [] = .ok ctx) :
+    ∀ k, specLoad W L k n lim ≠ .error .fuel →
+      specLoad W L k n lim = (match lim with
+        | .start => .ok ctx
+        | _ => if (extendList W ctx (okItems (beforeLimit content lim).1)).2
+               then (if (beforeLimit content lim).2 then .ok (extendList W ctx (okItems (beforeLimit content lim).1)).1 else .error .limit)
+               else .error .extend) := by
+  intro k hk
+  unfold specLoad at hk ⊢
+  simp only [htopo] at hk ⊢
+  cases hc : specContent W L k n with
+  | error e' =>
+    rw [hc] at hk
+    simp only [] at hk
+    by_cases hf : e' = .fuel
+    · subst hf; exact absurd rfl hk
+    · have := hsp k (by rw [hc]; intro h; cases h; exact hf rfl)
+      rw [hc] at this; cases this
+  | ok c =>
+    have hce := hsp k (by rw [hc]; intro h; cases h)
+    rw [hc] at hce
+    cases hce
+    rw [hc] at hk
+    simp only [hord] at hk ⊢
+    cases hcx : ctxOf W (specContent W L k) order [] with
+    | error e' =>
+      rw [hcx] at hk
+      simp only [] at hk
+      by_cases hf : e' = .fuel
+      · subst hf; exact absurd rfl hk
+      · have := hctx k (by rw [hcx]; intro h; cases h; exact hf rfl)
+        rw [hcx] at this; cases this
+    | ok ctx' =>
+      have := hctx k (by rw [hcx]; intro h; cases h)
+      rw [hcx] at this
+      cases this
+      cases lim <;> rfl
+
 theorem loadBody_post {fault : Option Item} {rec : Call → State → R} (hrec : RecOk W L fault rec) (n : Name) (lim : Limit)
     {s : State} (hi : Inv W L s) :
-    Rel W L s (loadBody rec n lim s).2 ∧ (loadBody rec n lim s).2.blocks = s.blocks ∧
-      LoadOk W L n lim (loadBody rec n lim s).1 (loadBody rec n lim s).2 := by
+    Rel W L s (loadBody W rec n lim s).2 ∧ (loadBody W rec n lim s).2.blocks = s.blocks ∧
+      LoadOk W L n lim (loadBody W rec n lim s).1 (loadBody W rec n lim s).2 := by
   unfold loadBody
   have hp := hrec (.ltc n) s hi
   rcases hr : rec (.ltc n) s with ⟨r1, s1⟩
@@ -174,7 +217,7 @@ theorem loadBody_post {fault : Option Item} {rec : Call → State → R} (hrec :
       have hsc : SameCore s1 { s1 with thy := some [] } := ⟨rfl, rfl, rfl⟩
       have hloop := loopDeps_post W L (fun p s => rec (.ltc p) s) (fun p s hs => hrec (.ltc p) s hs) order
         { s1 with thy := some [] } [] (h1.inv.of_sameCore hsc)
-      rcases hlp : loopDeps (fun p s => rec (.ltc p) s) order { s1 with thy := some [] } [] with ⟨r2, s2, deps⟩
+      rcases hlp : loopDeps W (fun p s => rec (.ltc p) s) order { s1 with thy := some [] } [] with ⟨r2, s2, deps⟩
       rw [hlp] at hloop
       obtain ⟨hr2, hb2, hctx⟩ := hloop
       simp only [] at hr2 hb2 hctx
@@ -183,8 +226,8 @@ theorem loadBody_post {fault : Option Item} {rec : Call → State → R} (hrec :
       | some e' => exact ⟨hrel2, hb2.trans h2, fun h => by simp at h⟩
       | none =>
         simp only []
-        have hctx' : ∀ k, ctxOf (specContent W L k) order [] ≠ .error .fuel →
-            ctxOf (specContent W L k) order [] = .ok (s2.thy.getD []) := hctx rfl
+        have hctx' : ∀ k, ctxOf W (specContent W L k) order [] ≠ .error .fuel →
+            ctxOf W (specContent W L k) order [] = .ok (s2.thy.getD []) := hctx rfl
         have himpn : e.imports = L.imports n := by
           unfold Lib.imps at himp
           by_cases hn : n ∈ L.names
@@ -193,63 +236,35 @@ theorem loadBody_post {fault : Option Item} {rec : Call → State → R} (hrec :
         have htopo : topoCheck L.imps L.names = none := (h1.inv.2 T hT).1
         obtain ⟨e2, he2, hs2⟩ := ((Rel.of_sameCore h1.inv hsc).trans hr2).mono n e he hs
         have hsp2 := cache_spec W L hr2.inv he2 hs2
-        -- what the specification computes
-        have hspec : ∀ k, specLoad W L k n lim ≠ .error .fuel →
-            specLoad W L k n lim = (match lim with
-              | .start => .ok (s2.thy.getD [])
-              | _ => if (beforeLimit e2.content lim).2 then .ok (s2.thy.getD [] ++ okItems (beforeLimit e2.content lim).1)
-                     else .error .limit) := by
-          intro k hk
-          unfold specLoad at hk ⊢
-          simp only [htopo] at hk ⊢
-          cases hc : specContent W L k n with
-          | error e' =>
-            rw [hc] at hk
-            simp only [] at hk
-            by_cases hf : e' = .fuel
-            · subst hf; exact absurd rfl hk
-            · have := hsp2 k (by rw [hc]; intro h; cases h; exact hf rfl)
-              rw [hc] at this; cases this
-          | ok c =>
-            have hce := hsp2 k (by rw [hc]; intro h; cases h)
-            rw [hc] at hce
-            cases hce
-            rw [hc] at hk
-            simp only [← himpn, hord] at hk ⊢
-            cases hcx : ctxOf (specContent W L k) order [] with
-            | error e' =>
-              rw [hcx] at hk
-              simp only [] at hk
-              by_cases hf : e' = .fuel
-              · subst hf; exact absurd rfl hk
-              · have := hctx' k (by rw [hcx]; intro h; cases h; exact hf rfl)
-                rw [hcx] at this; cases this
-            | ok ctx =>
-              have := hctx' k (by rw [hcx]; intro h; cases h)
-              rw [hcx] at this
-              cases this
-              cases lim <;> rfl
+        have hord' : L.order (L.imports n) = some order := by rw [← himpn]; exact hord
+        have hspec := specLoad_eq W L n lim order e2.content (s2.thy.getD []) htopo hord' hsp2 hctx'
         unfold loadFinish
         cases lim with
         | start => exact ⟨hrel2, hb2.trans h2, fun _ k hk => hspec k hk⟩
         | none =>
           simp only [he2]
-          have hbl : (beforeLimit e2.content .none).2 = true := rfl
-          simp only [hbl, if_true]
-          refine ⟨hrel2.core_right (sameCore_extend _ _), hb2.trans h2, fun _ k hk => ?_⟩
-          rw [hspec k hk]
-          simp only [hbl, if_true]
-          rfl
+          by_cases hx : (extendList W (s2.thy.getD []) (okItems (beforeLimit e2.content .none).1)).2 = true
+          · have hbl : (beforeLimit e2.content .none).2 = true := rfl
+            simp only [hx, hbl, if_true]
+            refine ⟨hrel2.core_right (sameCore_setThy _ _), hb2.trans h2, fun _ k hk => ?_⟩
+            rw [hspec k hk]
+            simp only [hx, hbl, if_true]
+            rfl
+          · simp only [hx]
+            exact ⟨hrel2.core_right (sameCore_setThy _ _), hb2.trans h2, fun h => by simp at h⟩
         | item i =>
           simp only [he2]
-          by_cases hbl : (beforeLimit e2.content (.item i)).2 = true
-          · simp only [hbl, if_true]
-            refine ⟨hrel2.core_right (sameCore_extend _ _), hb2.trans h2, fun _ k hk => ?_⟩
-            rw [hspec k hk]
-            simp only [hbl, if_true]
-            rfl
-          · simp only [hbl]
-            exact ⟨hrel2.core_right (sameCore_extend _ _), hb2.trans h2, fun h => by simp at h⟩
+          by_cases hx : (extendList W (s2.thy.getD []) (okItems (beforeLimit e2.content (.item i)).1)).2 = true
+          · by_cases hbl : (beforeLimit e2.content (.item i)).2 = true
+            · simp only [hx, hbl, if_true]
+              refine ⟨hrel2.core_right (sameCore_setThy _ _), hb2.trans h2, fun _ k hk => ?_⟩
+              rw [hspec k hk]
+              simp only [hx, hbl, if_true]
+              rfl
+            · simp only [hx, hbl, if_true]
+              exact ⟨hrel2.core_right (sameCore_setThy _ _), hb2.trans h2, fun h => by simp at h⟩
+          · simp only [hx]
+            exact ⟨hrel2.core_right (sameCore_setThy _ _), hb2.trans h2, fun h => by simp at h⟩
 
 /-- every call of the loader, at every fuel, with or without an injected fault -/
 theorem exec_post (fault : Option Item) : ∀ f, RecOk W L fault (exec W fault f) := by
